@@ -11,5 +11,7 @@ func NewWifiConfigurationControl() *WifiConfigurationControl {
 	char.Format = FormatTLV8
 	char.Perms = []string{PermRead, PermWrite, PermEvents}
 
+	char.SetValue([]byte{})
+
 	return &WifiConfigurationControl{char}
 }
